@@ -221,12 +221,20 @@ class SchemaBuilder(
         if "type" not in key or key["type"] != JsonType.STRING:
             raise ValueError("Mapping types must have string-convertible keys")
         value = self.visit(value_type)
+        # keys constraints (length, pattern, enum, etc.) apply to every property name
+        property_names = None if key.keys() == {"type"} else key
         if "pattern" in key:
             return json_schema(
-                type=JsonType.OBJECT, patternProperties={key["pattern"]: value}
+                type=JsonType.OBJECT,
+                patternProperties={key["pattern"]: value},
+                propertyNames=property_names,
             )
         else:
-            return json_schema(type=JsonType.OBJECT, additionalProperties=value)
+            return json_schema(
+                type=JsonType.OBJECT,
+                additionalProperties=value,
+                propertyNames=property_names,
+            )
 
     def visit_field(
         self, tp: AnyType, field: ObjectField, required: bool = True
